@@ -31,6 +31,13 @@ CHECKS = {
             "and spoken protocol are read off the simulated network's trace and the peers' own parsers.",
             "TLS is a marker layer; tunnel SNI override and the https-proxy hop's server name are outside the oracle.",
             "3 C10"),
+    "C11": ("exploration",
+            "Hypothesis-generated proxy configurations, requests and proxy replies; oracle = the proxy model's own parsers plus planted marker strings",
+            "Forward, CONNECT-tunnel and SOCKS5 hops with generated credentials, colliding proxy headers, bodies and every kind of proxy reply: "
+            "absolute-form target and header merge law on the forward hop, exact CONNECT host:port / Host, no caller data in CONNECT, no proxy "
+            "data inside the tunnel, ProxyError and silence after a refusal, exact SOCKS greeting / credentials / command.",
+            "Own parsers decode the hop; CONNECT interim replies and SOCKS reply codes 9-255 are C15's domain.",
+            "3 C11"),
     "C16": ("exploration",
             "exhaustive configuration matrix over the op trace of a simulated backend (timeout argument of every network op) + virtual-clock pool-timeout schedules",
             "Every combination of connect/read/write/pool in {absent, None, 0, value} x 14 connection kinds x 3 request shapes, two requests "
